@@ -147,6 +147,24 @@ def getItem (raw : Json) (key : Str) : Except Err Json :=
     | none => .error .keyError
   | _ => .error .typeError
 
+/-- `j[k1][k2]…` on nested dicts -/
+def Json.getPath : Json → List Str → Option Json
+  | j, [] => some j
+  | .obj kvs, k :: ks => match kvs.lookup k with
+    | some v => v.getPath ks
+    | none => none
+  | _, _ :: _ => none
+
+mutual
+  /-- the key paths of all non-dict values below a JSON value (what a comparison of the serialised text compares) -/
+  def Json.leafPaths : Json → List (List Str)
+    | .obj kvs => leafPathsKvs kvs
+    | _ => [[]]
+  def leafPathsKvs : List (Str × Json) → List (List Str)
+    | [] => []
+    | (k, v) :: rest => (v.leafPaths.map (k :: ·)) ++ leafPathsKvs rest
+end
+
 /-! ## MetaHeader (data/meta/header.py) -/
 
 /-- `MetaHeader.Tag` (header.py:13) -/
